@@ -19,7 +19,7 @@ import (
 // "zinner": E = [A(int) List(strs) Any(any)]
 
 func buildZInner(v Val) ZInner {
-	in := ZInner{A: int(v.E[0].I), b: "hidden"}
+	in := ZInner{A: int(v.E[0].I), b: "hidden", B: "TWIN-OF-b"}
 	if l, ok := Build(v.E[1]).([]string); ok {
 		in.List = l
 	}
@@ -33,7 +33,7 @@ func init() {
 		if v.T == "nilptr" {
 			return (*ZS)(nil)
 		}
-		s := ZS{Name: v.E[0].Str(), priv: "secret", In: buildZInner(v.E[1]), Any: Build(v.E[3]), Count: int(v.E[5].I)}
+		s := ZS{Name: v.E[0].Str(), priv: "secret", Priv: "TWIN-OF-priv", In: buildZInner(v.E[1]), Any: Build(v.E[3]), Count: int(v.E[5].I)}
 		if v.E[2].K == "zinner" {
 			in := buildZInner(v.E[2])
 			s.PIn = &in
@@ -701,7 +701,8 @@ func genC08(t *rapid.T) *c08Case {
 		var st c08Step
 		switch {
 		case wrong:
-			st = pick(t, "wrongstep", []c08Step{{Kind: "field", Name: "nosuch"}, {Kind: "field", Name: "priv"}, {Kind: "field", Name: "b"}, {Kind: "index", Idx: 9}, {Kind: "sub_int", Idx: 9},
+			st = pick(t, "wrongstep", []c08Step{{Kind: "field", Name: "nosuch"}, {Kind: "field", Name: "priv"}, {Kind: "field", Name: "b"}, {Kind: "field", Name: "name"}, {Kind: "field", Name: "count"}, {Kind: "field", Name: "a"},
+				{Kind: "field", Name: "list"}, {Kind: "field", Name: "greeting"}, {Kind: "field", Name: "hello", Call: true, Args: []c08A{{K: "str", S: "x"}}}, {Kind: "field", Name: "NAME"}, {Kind: "sub_str", Name: "name"}, {Kind: "sub_str", Name: "priv"}, {Kind: "index", Idx: 9}, {Kind: "sub_int", Idx: 9},
 				{Kind: "sub_var", Name: "neg"}, {Kind: "sub_var", Name: "idx"}, {Kind: "sub_str", Name: "zz"}, {Kind: "field", Name: "Hello", Call: true}, {Kind: "field", Name: "k1", Call: true},
 				{Kind: "field", Name: "Name", Call: true, Args: []c08A{{K: "int", I: 1}}}, {Kind: "field", Name: "Hello", Call: true, Args: []c08A{{K: "int", I: 1}}}})
 		case cur.K == "zs" && cur.T != "nilptr":
